@@ -70,9 +70,9 @@ def cmp(x,y):
             return c
         else:
             return cmparr(xv, yv)
-    if is_nan(x):
+    if isinstance(x, float) and x != x: ## nan ranks with +inf, above every finite number; -inf stays the smallest
         x = np.inf
-    if is_nan(y):
+    if isinstance(y, float) and y != y:
         y = np.inf
     if is_iterable(x):
         return cmparr(x,y)
